@@ -140,6 +140,11 @@ def drawRule (vt ct : String) (o : Opts) : Option XRule :=
     else none
   else none
 
+/-- `ct, ok = criteriaType[opt.Criteria]`: the empty string when the criteria is not in the map -/
+def strOr : Option String → String
+  | some c => c
+  | none => ""
+
 /-- `SetConditionalFormat` for one option structure: type and criteria checks, then the draw function -/
 def setRule (o : Opts) : Option XRule :=
   match lookupS Facts.C18.validType o.type with
@@ -148,7 +153,7 @@ def setRule (o : Opts) : Option XRule :=
     let ct := lookupS Facts.C18.criteriaType o.criteria
     if ct.isSome || Facts.C18.noCriteriaTypes.contains vt then
       if Facts.C18.drawContFmtFuncKeys.contains vt then
-        drawRule vt (match ct with | some c => c | none => "") o
+        drawRule vt (strOr ct) o
       else none
     else none
 
